@@ -190,7 +190,10 @@ def r2(ctx):
         for st in _out_stores(f.node):
             ctx.look()
             v = st.value
-            ok = isinstance(v, ast.BinOp) and isinstance(v.op, ast.Mult) and (norm(v.left) == "scale" or norm(v.right) == "scale")
+
+            def arms(e):
+                return arms(e.body) + arms(e.orelse) if isinstance(e, ast.IfExp) else [e]
+            ok = all(isinstance(a, ast.BinOp) and isinstance(a.op, ast.Mult) and (norm(a.left) == "scale" or norm(a.right) == "scale") for a in arms(v))
             ctx.check(ok, "C02.R2", f"{f.qualname}: every stored column is multiplied by the term's scale", f.module.line(st),
                       ctx.construct(f, st), f"column value `{norm(v)[:100]}` is not `scale * <product>`: the literal scaling of the term is lost")
         ctx.check("scale" in param_names(f.node), "C02.R2", f"{f.qualname} takes the scale", f.where, ctx.construct(f, text="signature"), "no scale parameter")
@@ -225,8 +228,9 @@ def r2(ctx):
             and other.args and is_const(other.args[0], 1)
         ctx.check(ok and ok2, "C02.R2", "the intercept is scale * constant(1) named Intercept", b.module.line(st), ctx.construct(b, st),
                   f"intercept column is `{norm(v)[:100]}`")
-        par = P.parent(st)
-        ctx.check(isinstance(par, ast.If) and norm(par.test) == "not scoped_term.factors" and st in par.body, "C02.R2",
+        from ..util import atom_mapper, reach_condition, truth_table
+        rc = reach_condition(P, st, mention="scoped_term")
+        ctx.check(rc is not None and truth_table(rc, atom_mapper({"scoped_term.factors": 0}), 1) == (True, False), "C02.R2",
                   "the intercept column is emitted exactly for the factor-less scoped term", b.module.line(st), ctx.construct(b, text="intercept guard"),
                   "the Intercept store must be guarded by `not scoped_term.factors`")
 
@@ -249,18 +253,27 @@ def r3(ctx):
                        and isinstance(c.func.value, ast.Name) and c.func.value.id != factors]
         ok_guard = False
         solo = None
+        from ..util import atom_mapper, reach_condition, truth_table
         for c in idx_appends:
-            g = P.parent(P.enclosing_stmt(c))
-            if isinstance(g, ast.If) and re.fullmatch(r"len\((\w+)\) == 1", norm(g.test)):
-                fv = re.fullmatch(r"len\((\w+)\) == 1", norm(g.test)).group(1)
-                lp = P.parent(g)
-                if isinstance(lp, ast.For) and norm(lp.iter) == f"enumerate({factors})" and norm(lp.target) == f"({norm(c.args[0])}, {fv})":
-                    upd = [u for u in ast.walk(g) if isinstance(u, ast.Call) and isinstance(u.func, ast.Attribute) and u.func.attr == "update"
-                           and u.args and norm(u.args[0]) == fv]
-                    if len(upd) == 1:
-                        ok_guard = True
-                        solo = norm(upd[0].func.value)
-                        idxlist = norm(c.func.value)
+            st_c = P.enclosing_stmt(c)
+            lp = P.parent(st_c)
+            while lp is not None and not isinstance(lp, (ast.For, ast.FunctionDef)):
+                lp = P.parent(lp)
+            if not (isinstance(lp, ast.For) and norm(lp.iter) == f"enumerate({factors})" and isinstance(lp.target, ast.Tuple) and len(lp.target.elts) == 2
+                    and c.args and norm(lp.target.elts[0]) == norm(c.args[0]) and isinstance(lp.target.elts[1], ast.Name)):
+                continue
+            fv = lp.target.elts[1].id
+            am = atom_mapper({f"len({fv}) == 1": 0})
+
+            def solo_only(st_):
+                rc = reach_condition(P, st_, mention=fv)
+                return rc is not None and truth_table(rc, am, 1) == (False, True)
+            upd = [u for u in ast.walk(lp) if isinstance(u, ast.Call) and isinstance(u.func, ast.Attribute) and u.func.attr == "update"
+                   and u.args and norm(u.args[0]) == fv]
+            if solo_only(st_c) and len(upd) == 1 and solo_only(P.enclosing_stmt(upd[0])):
+                ok_guard = True
+                solo = norm(upd[0].func.value)
+                idxlist = norm(c.func.value)
         ctx.check(ok_guard, "C02.R3", inst, f.where, ctx.construct(f, text="solo guard"),
                   "only factors proven `len(factor) == 1` may be merged; the guard/enumerate pairing was not found")
         if not ok_guard:
@@ -275,11 +288,18 @@ def r3(ctx):
         ctx.floor("C02.R3", len(apps), 1, "merged-factor appends")
         for a in apps:
             ctx.look()
-            d = a.args[0] if a.args else None
-            ok = isinstance(d, ast.Dict) and len(d.keys) == 1 and norm(d.keys[0]) == f"':'.join({solo})"
-            v = d.values[0] if ok else None
-            ok_v = ok and isinstance(v, ast.Call) and (dotted(v.func) or "").endswith("reduce") and len(v.args) == 2 and (
-                norm(v.args[1]) == f"{solo}.values()" or (isinstance(v.args[1], ast.GeneratorExp) and norm(v.args[1].generators[0].iter) == f"{solo}.values()"))
+            d0 = a.args[0] if a.args else None
+
+            def arms_(e):
+                return arms_(e.body) + arms_(e.orelse) if isinstance(e, ast.IfExp) else [e]
+            ok, ok_v = d0 is not None, d0 is not None
+            for d in arms_(d0) if d0 is not None else []:   # the container may be selected by a conditional expression: every arm is held to the rule
+                ok1 = isinstance(d, ast.Dict) and len(d.keys) == 1 and norm(d.keys[0]) == f"':'.join({solo})"
+                v = d.values[0] if ok1 else None
+                ok_v = ok_v and ok1 and isinstance(v, ast.Call) and (dotted(v.func) or "").endswith("reduce") and len(v.args) == 2 and (
+                    norm(v.args[1]) == f"{solo}.values()" or (isinstance(v.args[1], ast.GeneratorExp) and norm(v.args[1].generators[0].iter) == f"{solo}.values()"))
+                ok = ok and ok1
+            d = d0
             ctx.check(ok and ok_v, "C02.R3", f"{f.qualname}: one merged single-key factor whose key joins the keys and whose value multiplies the values of the same dict",
                       f.module.line(a), ctx.construct(f, text=f"append merged solo factor @{'sparse' if 'csc_matrix' in norm(a) else 'dense'}"),
                       f"appended `{norm(d)[:110] if d is not None else None}`")
@@ -441,8 +461,19 @@ def r5(ctx):
     fv = lp.target.id
     first = lp.body[0] if lp.body and isinstance(lp.body[0], ast.If) else None
     ctx.look()
-    ok = first is not None and _kind_test(first.test, fv) is True and len(first.body) == 1 and norm(first.body[0]) == f"scale *= {fv}.values" \
-        and not any("append" in norm(s) for s in first.body)
+    from ..util import atom_mapper, reach_condition, truth_table
+    am = atom_mapper({f"{fv}.metadata.kind is Factor.Kind.CONSTANT": 0, f"{fv}.metadata.spans_intercept": 1})
+    muls = [x for x in ast.walk(lp) if isinstance(x, ast.AugAssign) and norm(x) == f"scale *= {fv}.values"]
+    apps = [P.enclosing_stmt(x) for x in ast.walk(lp) if isinstance(x, ast.Call) and isinstance(x.func, ast.Attribute) and x.func.attr == "append"]
+
+    def table(st_):
+        rc = reach_condition(P, st_, mention=fv)
+        return truth_table(rc, am, 2) if rc is not None else None
+    # the literal multiplies into the scale exactly when the factor is CONSTANT, and a factor is appended exactly when it is not
+    # (assignments in itertools.product order: (constant, spans_intercept) = FF, FT, TF, TT)
+    at = [table(a_) for a_ in apps]
+    ok = len(muls) == 1 and table(muls[0]) == (False, False, True, True) and bool(apps) and all(isinstance(t_, tuple) for t_ in at) \
+        and tuple(any(t_[k] for t_ in at) for k in range(4)) == (True, True, False, False)
     ctx.check(ok, "C02.R5", "rank reduction on: a CONSTANT factor multiplies into the scale and contributes no factor", g.module.line(lp),
               ctx.construct(g, text="CONSTANT branch"), f"first branch of the factor loop is `{stmt_text(first) if first is not None else None}`")
     init = [v for n, v, _ in assignments(g.node) if n == "scale"]
@@ -556,7 +587,10 @@ def r9(ctx):
             raise AnalysisError(f"C02.R9: {f.qualname} cannot be summarised: {e}")
         ann = norm(f.node.args.args[0].annotation) if f.node.args.args[0].annotation is not None else None
         H, Cn = "hasattr(data, '__formulaic_metadata__')", "data.__formulaic_metadata__.column_names"
-        splits = [o for o in fouts if any(isinstance(x, ast.DictComp) for x in ast.walk(o.value))]
+        IDENT = ("dict(data.items())", "{VAR_k: VAR_v for VAR_k, VAR_v in data.items()}", "dict(((VAR_k, VAR_v) for VAR_k, VAR_v in data.items()))",
+                 "{VAR_k: data[VAR_k] for VAR_k in data}", "{VAR_k: data[VAR_k] for VAR_k in data.columns}")
+        identity = bool(fouts) and all(sym.pm_any(IDENT, o.value) is not None for o in fouts)
+        splits = [] if identity else [o for o in fouts if any(isinstance(x, ast.DictComp) for x in ast.walk(o.value))]
         if splits:
             n += 1
             ctx.look()
@@ -573,7 +607,7 @@ def r9(ctx):
             ctx.check(ok, "C02.R9", "declared column names are used when present, else 0..k-1", f.where,
                       ctx.construct(f"formulaic.utils.cast.as_columns[{ann}]", text="column names source"),
                       f"names used: declared case {[b and b['ANY_names'] for b in bd]}, default case {[b and b['ANY_names'] for b in bf]}")
-        elif any(norm(o.value) in ("dict(data.items())", "{VAR_k: VAR_v for VAR_k, VAR_v in data.items()}") for o in fouts):
+        elif identity:
             n += 1
             ctx.ok("C02.R9", "as_columns[DataFrame] keeps each column under its own label", f.where)
     ctx.floor("C02.R9", n, 3, "column splits")
